@@ -11,8 +11,10 @@
    [ext_wiring_orig] is the pinned template (SrcS passed ""); C09_wiring_orig_refuted and
    C09_fields_orig_refuted record the defect.                                                *)
 From Coq Require Import NArith List Bool Permutation Sorted.
+From Coq Require String.
+Import Coq.Strings.String.StringSyntax.
 From GT Require Import Base.GErrStr.
-From GT Require Import GErrModel GErrSpec GErrExtProofs.
+From GT Require Import GErrModel GErrSpec GErrExtDesc GErrExtProofs.
 Import ListNotations.
 
 (* ---- per-method argument wiring: template stanza = base method, for all 19 methods ---- *)
@@ -107,6 +109,60 @@ Theorem C09_no_print_fields : forall g x,
   filter f_print (x_fields x) = [] -> ext_error_head g x = error_head g.
 Proof. exact ext_head_no_print. Qed.
 
+(* ---- the print clause, declaratively (independent of how the generator computes the list):
+        SOME name-ordered arrangement of exactly the print-tagged fields, between the base prefix
+        and the message.  The model's rendering satisfies it, at most one text does (distinct
+        field names), so comparing an observed Error() head with the model's text decides it ---- *)
+Theorem C09_print_spec_holds : forall g x, print_spec (x_fields x) g (ext_error_head g x).
+Proof. exact print_spec_holds. Qed.
+
+Theorem C09_print_spec_unique : forall fs g h1 h2,
+  NoDup (map f_name fs) -> print_spec fs g h1 -> print_spec fs g h2 -> h1 = h2.
+Proof. exact print_spec_unique. Qed.
+
+Theorem C09_print_spec_decided : forall g x h,
+  NoDup (map f_name (x_fields x)) -> (print_spec (x_fields x) g h <-> h = ext_error_head g x).
+Proof. exact print_spec_decided. Qed.
+
+(* ---- the regenerated descriptions (GErrExtDesc.v): the check reads, from the code the current
+        generator emits for every farm struct, the print list of Error() (selectors resolved
+        against the struct's own members) and the fields toPrimaryType copies, and compares them
+        with [expected_desc] / [expected_primary] of the declared fields.  A type with these
+        descriptions renders and clones exactly as the model says, for every value: ---- *)
+Theorem C09_desc_head : forall g x,
+  NoDup (map f_name (x_fields x)) ->
+  eval_desc g x (expected_desc (x_fields x)) = ext_error_head g x.
+Proof. exact desc_head. Qed.
+
+Theorem C09_desc_primary : forall x,
+  NoDup (map f_name (x_fields x)) ->
+  primary_by_names (expected_primary (x_fields x)) x = to_primary x.
+Proof. exact desc_primary. Qed.
+
+(* the base rendering part never reads an extension field (also one named Name, Source or
+   Message, which shadows the promoted field): before and after the print list only members of
+   the embedded GError are selected *)
+Theorem C09_desc_base_part : forall fs,
+  exists mid, expected_desc fs
+    = [PIf lit_name (PBase BName) lit_sep; PIf lit_dtag (PBase BDTag) lit_sep;
+       PIf lit_source (PBase BSource) lit_sep] ++ mid
+      ++ [PMsg lit_message (PBase BMessage); PStack (PBase BStack)]
+    /\ Forall (fun it => match it with PField _ _ _ => True | _ => False end) mid.
+Proof. exact expected_desc_base_part. Qed.
+
+(* non-vacuity of the shadowing case: a struct with its own string field Source (print name
+   "origin"): Error() shows the GError source under "Source:" and the field under "origin:" *)
+Example C09_shadow_example :
+  let fs := [ mkF (s_of "Source") true (s_of "origin") [lit_print; lit_clone] (s_of "field") [] ] in
+  let g := mkG (s_of "E") (s_of "m") (s_of "real") [] None VNil VNil [] false in
+  ext_error_head g (mkX 1 fs) = s_of "Name: E, Source: real, origin: field, Message: m"
+  /\ eval_desc g (mkX 1 fs) (expected_desc fs) = s_of "Name: E, Source: real, origin: field, Message: m"
+  /\ eval_desc g (mkX 1 fs)
+       [PIf lit_name (PBase BName) lit_sep; PIf lit_source (POwn (s_of "Source")) lit_sep;
+        PField (s_of "origin") (s_of "Source") lit_sep; PMsg lit_message (PBase BMessage)]
+     = s_of "Name: E, Source: field, origin: field, Message: m".
+Proof. vm_compute. repeat split. Qed.
+
 (* ---- non-vacuity: a struct with a print+clone field, a renamed print-only field, a clone-only
         field and an untagged one ---- *)
 Definition ex_fields : list xfield :=
@@ -139,3 +195,9 @@ Print Assumptions C09_print_name.
 Print Assumptions C09_base_rendering.
 Print Assumptions C09_no_print_fields.
 Print Assumptions C09_fields_chain.
+Print Assumptions C09_desc_head.
+Print Assumptions C09_desc_primary.
+Print Assumptions C09_desc_base_part.
+Print Assumptions C09_print_spec_holds.
+Print Assumptions C09_print_spec_unique.
+Print Assumptions C09_print_spec_decided.
